@@ -348,7 +348,7 @@ func (r *Resolver) onSetOrList(g *Scope, name string, t *parser.Type, v *parser.
 			if err != nil {
 				return "", err
 			}
-			ss = append(ss, str+",")
+			ss = append(ss, r.sicElem(t.ValueType, str)+",")
 		}
 		if len(ss) == 0 {
 			return goType + "{}", nil
@@ -364,6 +364,18 @@ func (r *Resolver) onSetOrList(g *Scope, name string, t *parser.Type, v *parser.
 	}
 	// fault tolerance
 	return goType + "{}", nil
+}
+
+// sicElem adapts the literal of a struct-like container element to
+// value_type_in_container, where elements are values, not pointers.
+func (r *Resolver) sicElem(t *parser.Type, s string) string {
+	if t == nil || !t.Category.IsStructLike() || !r.util.Features().ValueTypeForSIC {
+		return s
+	}
+	if strings.HasPrefix(s, "&") {
+		return s[1:]
+	}
+	return "*" + s
 }
 
 func (r *Resolver) onMap(g *Scope, name string, t *parser.Type, v *parser.ConstValue) (string, error) {
@@ -385,7 +397,7 @@ func (r *Resolver) onMap(g *Scope, name string, t *parser.Type, v *parser.ConstV
 			if err != nil {
 				return "", err
 			}
-			kvs = append(kvs, fmt.Sprintf("%s: %s,", key, val))
+			kvs = append(kvs, fmt.Sprintf("%s: %s,", key, r.sicElem(t.ValueType, val)))
 		}
 		if len(kvs) == 0 {
 			return goType + "{}", nil
